@@ -145,6 +145,50 @@ def _fold(repo, t):
     return ir.subst(t, m) if m else t
 
 
+def solver_fit_bindings(ctx):
+    """Shared with C05.R6: every `<solver>.fit(..)` call of ConformalElectionModel.fit_model bound against the signature of the INSTALLED
+    elexsolver.QuantileRegressionSolver.fit (positional arguments by position, keywords by name, defaults from the source).
+    -> [{'kind': 'first' | 'retry', 'bound': {param: term}, 'problems': [..], 'node': ast}], the function"""
+    f = ctx.fn(MOD, "ConformalElectionModel.fit_model")
+    sig = external_signature("elexsolver.QuantileRegressionSolver", "QuantileRegressionSolver", "fit")
+    params = sig["params"][1:]
+    defaults = {}
+    for p_, d_ in sig["defaults"].items():
+        try:
+            defaults[p_] = ("const", ast.literal_eval(d_))
+        except Exception:
+            defaults[p_] = ("unknown", ast.unparse(d_))
+    solver_params = [p_ for (ff, p_), ts in ctx.resolver.param_types.items() if ff is f and ("ext", QRS) in ts]
+    ctx.require(solver_params, f"{f.where()}: no parameter of fit_model is typed QuantileRegressionSolver")
+    sp = solver_params[0]
+    s = ctx.builder().summarize(f)
+    out = []
+    for pc, t, n in s.effects:
+        if not (t[0] == "call" and t[1] == ("attr", ("param", sp), "fit")):
+            continue
+        bound, problems = {}, []
+        args, kws = t[2], t[3]
+        if len(args) > len(params) and not sig["vararg"]:
+            problems.append(f"{len(args)} positional arguments but fit takes {len(params)}")
+        for p_, a_ in zip(params, args):
+            bound[p_] = a_
+        for k_, v_ in kws:
+            if k_ is None:
+                problems.append("**kwargs expansion: cannot bind statically")
+            elif k_ in params or k_ in sig["kwonly"]:
+                if k_ in bound:
+                    problems.append(f"argument '{k_}' given twice")
+                bound[k_] = v_
+            elif not sig["varkw"]:
+                problems.append(f"unexpected keyword argument '{k_}'")
+        for p_ in params:
+            if p_ not in bound and p_ in defaults:
+                bound[p_] = defaults[p_]
+        out.append({"kind": "retry" if any(c[0] == "exc" for c, _ in pc) else "first", "bound": {k_: _fold(ctx.repo, v_) for k_, v_ in bound.items()},
+                    "problems": problems, "node": n})
+    return out, f
+
+
 def check(ctx):
     repo = ctx.repo
     ctx.explanation = (
